@@ -462,8 +462,21 @@ fn random_history(rng: &mut Rng, len: usize, with_missing: bool) -> Vec<Op> {
 }
 
 /// Miri costs seconds per ABI call: short histories that are sure to register, re-register, emit and drop sources
-fn miri_history(rng: &mut Rng) -> Vec<Op> {
+fn miri_history(rng: &mut Rng, short: bool) -> Vec<Op> {
     let t0 = TRef::Issued(0);
+    if short {
+        // quick tier: register a root and one file (two leaked-and-rebuilt strings), one hostile step, emit, drop
+        let mut ops = vec![Op::Initiate("R1"), Op::Load(t0, if rng.coin() { "F1" } else { "F1ALT" }), Op::Emit(t0), Op::Free(t0)];
+        let extra = match rng.below(4) {
+            0 => Op::Emit(TRef::Never),
+            1 => Op::Free(t0),
+            2 => Op::Load(t0, "F1ALT"),
+            _ => Op::Required(t0),
+        };
+        let at = rng.range(1, ops.len());
+        ops.insert(at, extra);
+        return ops;
+    }
     let root = ["R1", "R2", "SELF"][rng.below(3)];
     let mut ops = vec![Op::Initiate(root), Op::Load(t0, if rng.coin() { "F1" } else { "F1ALT" }), Op::Required(t0), Op::Load(t0, "F2"), Op::Emit(t0), Op::Free(t0)];
     // drop one step (but never the initiate), add one hostile step
@@ -550,14 +563,14 @@ pub fn run_mode(ctx: &Ctx, rep: &mut Report, mode: &str) {
     }
     let (q, t) = match mode {
         "native" => (6_000, 400_000),
-        "asan" => (40_000, 1_000_000),
+        "asan" => (16_000, 1_000_000),
         "valgrind" => (3_000, 60_000),
-        _ => (16, 64), // miri
+        _ => (8, 64), // miri
     };
     let n = ctx.budget(q, t);
     for case in 0..n {
         let mut rng = ctx.rng(&format!("random-{mode}"), case);
-        let ops = if mode == "miri" { miri_history(&mut rng) } else { let len = rng.range(8, 60); random_history(&mut rng, len, with_missing) };
+        let ops = if mode == "miri" { miri_history(&mut rng, !ctx.thorough) } else { let len = rng.range(8, 60); random_history(&mut rng, len, with_missing) };
         if case == 0 && ctx.shard == 0 {
             rep.sample(json!({"mode": mode, "history": ops.iter().map(op_json).collect::<Vec<_>>()}));
         }
